@@ -126,9 +126,11 @@ package ice
 //@ enumerate C03 calls ice.(*Agent).sendNominationRequest in (*Agent).renominateCandidate
 
 //@ func (*Agent).findPair
-//@   props C03 C06
+//@   props C03 C06 C02
 //@   pure
-//@   trusted
+//@   loop 1 invariant index-in-range: rangeindex + 1 <= len(a.checklist)
+//@   ensures C02 C03 C06 found-pair-is-listed: result != nil ==> exists i int :: 0 <= i && i < len(a.checklist) && a.checklist[i] == result
+//@   ensures C02 C03 C06 found-pair-matches-both-candidates: result != nil ==> result.Local.Equal(local) && result.Remote.Equal(remote)
 
 //@ func (*Agent).handleInboundBindingSuccess
 //@   props C02
